@@ -19,7 +19,7 @@ if ! git -C $MUT/repo apply "$P" 2>$MUT/apply.err; then
   fi
 fi
 rm -rf $MUT/engine && mkdir -p $MUT/engine && cp -r /verif/engine/. $MUT/engine/ && rm -rf $MUT/engine/target
-sed -i "s|path = \"/repo/fpdec-core\"|path = \"$MUT/repo/fpdec-core\"|; s|path = \"/repo\"|path = \"$MUT/repo\"|" $MUT/engine/fpmc/Cargo.toml $MUT/engine/c20drv/Cargo.toml
+sed -i "s|path = \"/repo/fpdec-core\"|path = \"$MUT/repo/fpdec-core\"|; s|path = \"/repo\"|path = \"$MUT/repo\"|" $MUT/engine/fpmc/Cargo.toml $MUT/engine/c20drv/Cargo.toml $MUT/engine/c06miri/Cargo.toml
 
 ( cd $MUT/engine && CARGO_NET_OFFLINE=true CARGO_TARGET_DIR=$MUT/target RUSTFLAGS="--cfg fpdec_verif" cargo build --release --offline ) >$MUT/build.log 2>&1 || { echo "$(basename $D) BUILD-FAILED"; tail -5 $MUT/build.log; exit 2; }
 out=$(VERIF_REPO=$MUT/repo VERIF_ENGINE=$MUT/engine VERIF_OUT=$MUT/out $MUT/target/release/fpmc "$ID" "$TIER" 2>&1); rc=$?
